@@ -49,6 +49,8 @@ type State struct {
 	facts        []strFact         // string decomposition facts valid on this path
 	known        map[string]string // known slice elements: region|id|index -> term
 	quantDepth   int               // >0 while evaluating under a quantifier (no path assumptions may be added)
+	atomicAcq    int               // acquisitions of the operation's own mutex on this path
+	published    map[string]bool   // freshly allocated objects that have been stored into shared structures
 }
 
 func (st *State) clone() *State {
@@ -80,6 +82,13 @@ func (st *State) clone() *State {
 	n.iters = st.iters
 	n.preHeap = st.preHeap
 	n.facts = st.facts
+	n.atomicAcq = st.atomicAcq
+	if st.published != nil {
+		n.published = make(map[string]bool)
+		for k, v := range st.published {
+			n.published[k] = v
+		}
+	}
 	if st.known != nil {
 		n.known = make(map[string]string, len(st.known))
 		for k, v := range st.known {
